@@ -285,6 +285,57 @@ fn handle(req: &Value) -> Value {
             }
             json!({"live": live, "ok": outs})
         }
+        "seq_graph" => {
+            // several programs (each may be a module graph supplied from a map) on ONE interpreter; optionally a run is abandoned after
+            // `max_steps` steps or is never resumed after its first Suspended.  Reports each outcome and call_depth() afterwards.
+            fn drive(interp: &mut Interpreter, p: &Value) -> Value {
+                let src = p["src"].as_str().unwrap_or("");
+                let path = p["path"].as_str();
+                let modules = p["modules"].as_object().cloned().unwrap_or_default();
+                let max_steps = p["max_steps"].as_u64().unwrap_or(2_000_000);
+                let mut requested: Vec<String> = Vec::new();
+                let mut r = interp.prepare(src, path.map(ModulePath::new));
+                let mut n = 0u64;
+                let outcome = loop {
+                    n += 1;
+                    if n > max_steps { break json!("abandoned after step budget"); }
+                    match r {
+                        Ok(StepResult::Continue) => { r = interp.step(); }
+                        Ok(StepResult::NeedImports(reqs)) => {
+                            if reqs.is_empty() || requested.len() > 40 { break json!({"error": "empty or endless NeedImports"}); }
+                            let mut failed = None;
+                            for rq in reqs {
+                                let key = rq.resolved_path.as_str().to_string();
+                                requested.push(key.clone());
+                                match modules.get(&key).and_then(|v| v.as_str()) {
+                                    Some(msrc) => { if let Err(e) = interp.provide_module(rq.resolved_path, msrc) { failed = Some(json!({"provide_error": format!("{}", e)})); break; } }
+                                    None => { failed = Some(json!({"missing_module": key})); break; }
+                                }
+                            }
+                            if let Some(f) = failed { break f; }
+                            r = interp.step();
+                        }
+                        Ok(StepResult::Complete(v)) => break json!({"complete": js_to_json(v.value())}),
+                        Ok(StepResult::Suspended { pending, .. }) => break json!({"suspended": pending.iter().map(|o| o.id.0).collect::<Vec<u64>>()}),
+                        Ok(StepResult::Done) => break json!("Done"),
+                        Err(e) => break json!({"error": format!("{}", e).lines().next().unwrap_or("").to_string()}),
+                    }
+                };
+                json!({"outcome": outcome, "requested": requested, "call_depth_after": interp.call_depth()})
+            }
+            let mk = || Interpreter::with_config(tsrun::InterpreterConfig { internal_modules: vec![tsrun::create_eval_internal_module()], ..Default::default() });
+            let mut shared = mk();
+            let mut outs = Vec::new();
+            if let Some(a) = req["programs"].as_array() {
+                for p in a {
+                    let on_shared = drive(&mut shared, p);
+                    let mut fresh = mk();
+                    let on_fresh = drive(&mut fresh, p);
+                    outs.push(json!({"shared": on_shared, "fresh": on_fresh}));
+                }
+            }
+            json!({"outs": outs})
+        }
         "module_graph" => {
             // load a module graph: the host supplies the requested sources from a map, in the order asked for or reversed
             let mut interp = Interpreter::new();
